@@ -2,7 +2,7 @@
 # Must-fail corpus: applies every seeded change (seeded/*/patch.diff) and every hand-written mutant
 # (selftest/mutants/*.diff) to a scratch worktree of /repo (never to /repo itself), runs the check of the
 # property it breaks against that worktree, and records whether the check reported a violation.
-# The contract mirror is snapshotted at the start, so edits made while the corpus runs do not leak in.
+# The contract mirror and the shipped obligation lists are snapshotted at the start, so edits made while the corpus runs do not leak in.
 # usage: selftest.sh [name-filter]
 set -u
 cd /verif
@@ -14,6 +14,7 @@ wt=$root/wt
 rm -rf "$root"; mkdir -p "$root/ev"
 git -C /repo worktree prune
 cp -r /verif/contracts "$root/contracts"   # snapshot: edits made while the corpus runs do not leak in
+cp -r /verif/obligations "$root/obligations" # the shipped obligation lists belong to that snapshot
 git -C /repo worktree add -f -q "$wt" HEAD || exit 2
 out=seeded/RESULTS.txt
 : > $root/results.txt
@@ -26,7 +27,7 @@ for d in seeded/*/ selftest/mutants/*/; do
   git -C "$wt" checkout -q -- . && git -C "$wt" clean -fdq
   if ! git -C "$wt" apply "/verif/$d/patch.diff" 2>/dev/null; then echo "$n $id PATCH-DOES-NOT-APPLY" >> $root/results.txt; continue; fi
   if python3 -c "import json,sys; sys.exit(0 if any(c['property_id']=='$id' for c in json.load(open('MANIFEST.json'))['checks']) else 1)"; then
-    res=$(bin/govc check -repo "$wt" -contracts $root/contracts -evidence $root/ev "$id" 2>&1)
+    res=$(bin/govc check -repo "$wt" -contracts $root/contracts -baseline-dir $root/obligations -evidence $root/ev "$id" 2>&1)
     if echo "$res" | grep -q "^VIOLATION property=$id"; then
       ob=$(echo "$res" | grep "^   obligation" | head -2 | sed 's/^   obligation //' | cut -c1-110 | tr '\n' ';')
       echo "$n $id DETECTED $ob" >> $root/results.txt
